@@ -46,9 +46,9 @@ JudgeInit(tr) ==
     {
       Cl("C20.initvol", TRUE, L.init.vol = L.spec.init),
       Cl("C20.inithist", TRUE, L.init.hn = 1 /\ L.init.last.h /\ L.init.last.l = "initial" /\ L.init.last.s = L.spec.init),
-      Cl("C05.initcomp", L.spec.named,
+      Cl("C05.initcomp", L.spec.named /\ tr.flags.comp,
          [i \in 1..NReal(g) |-> Range(L.init.comp[i])] = InitComp(L.name, g, L.spec.init, L.spec.names)),
-      Cl("C05.initnormal", TRUE,
+      Cl("C05.initnormal", tr.flags.comp,
          \A i \in 1..NReal(g) : (L.spec.init[i] > 0) => CompNormalised(Range(L.init.comp[i])))
     } : k \in 1..NLw(tr)}
 
@@ -63,6 +63,8 @@ KwValid(kw) == /\ TextOK(kw.lc, FALSE) /\ TipArgValid(kw.tip) /\ TextOK(kw.racki
 Participants(ev) ==
   CASE ev.op \in {"add", "remove", "aspirate", "dispense", "evo_aspirate", "evo_dispense"} -> {ev.a.lw}
     [] ev.op \in {"transfer", "distribute"} -> {ev.a.src, ev.a.dst}
+    [] ev.op \in {"external", "rawemit"} -> 1..100   \* acted outside this trace's tracking (another worklist of the same
+                                                     \* test; EVO script commands issued by a repository test)
     [] OTHER -> {}
 
 CommentTexts(recs) == LET cm == Comments(recs) IN [i \in 1..Len(cm) |-> cm[i].text]
@@ -81,7 +83,7 @@ ReplayRecs(T, ev) ==
 
 TrackedOps == {"aspirate", "dispense", "transfer", "distribute", "evo_aspirate", "evo_dispense"}
 \* raw pipetting records appended through the low level emitters are not tracked by any labware
-Untracked(ev) == ev.op = "emit" /\ \E i \in 1..Len(ev.recs) : ev.recs[i].t \in {"A", "D", "R"}
+Untracked(ev) == ev.op \in {"emit", "rawemit"} /\ \E i \in 1..Len(ev.recs) : ev.recs[i].t \in {"A", "D", "R", "BA", "BD"}
 
 PipRecs(recs) == SelectSeq(recs, LAMBDA r : r.t \in {"A", "D"})
 
@@ -114,7 +116,7 @@ Common(tr, T, ev) ==
        Run(T, vol, TrackedComp(tr), ReplayRecs(T, ev)).err = ""),
     Cl("C11.prefix", live /\ ev.out = "ok",
        \A k \in 1..NLw(tr) : post.hsame[k] >= hn[k] /\ post.hn[k] >= hn[k]),
-    Cl("C11.newest", live /\ ev.out = "ok" /\ part # {},
+    Cl("C11.newest", live /\ ev.out = "ok" /\ part # {} /\ ev.op \notin {"external", "rawemit"},
        \A k \in part : post.last[k].s = post.vol[k])
   }
 
@@ -564,6 +566,8 @@ JudgeEvent(tr, T, ev) ==
           [] ev.op = "evo_wash" -> JudgeEvoWash(tr, T, ev)
           [] ev.op = "dilution" -> JudgeDilution(tr, T, ev)
           [] ev.op = "final" -> JudgeFinal(tr, T, ev)
+          [] ev.op = "external" -> {}
+          [] ev.op = "rawemit" -> {}
           [] OTHER -> {Cl("machinery.unknown_op", TRUE, FALSE)})
   \cup (IF tr.pair THEN JudgePair(tr, ev) ELSE {})
   \cup (IF tr.flags.fullhist THEN JudgeFullHist(tr, T, ev) ELSE {})
